@@ -220,6 +220,23 @@ impl Default for C12 {
 const ROUTED: [&str; 4] = ["increase_liquidity", "decrease_liquidity", "increase_liquidity_v2", "decrease_liquidity_v2"];
 const PINO_ONLY: [&str; 2] = ["increase_liquidity_by_token_amounts_v2", "reposition_liquidity_v2"];
 
+/// Does a Token-2022 mint account carry the extension of this type number (TLV walk after the account-type byte)?
+fn has_ext(d: &[u8], ty: u16) -> bool {
+    let mut i = 166;
+    while i + 4 <= d.len() {
+        let t = u16::from_le_bytes([d[i], d[i + 1]]);
+        let l = u16::from_le_bytes([d[i + 2], d[i + 3]]) as usize;
+        if t == 0 {
+            return false;
+        }
+        if t == ty {
+            return true;
+        }
+        i += 4 + l;
+    }
+    false
+}
+
 impl Monitor for C12 {
     fn after(&mut self, w: &mut World, obs: &Obs, acc: &mut Acc) {
         let name = obs.ix.name;
@@ -248,6 +265,14 @@ impl Monitor for C12 {
             let fail = |acc: &mut Acc, sig: &str, detail: String| {
                 acc.violation(format!("c12:route:{sig}:{name}"), detail, json!({"instruction": ix_brief(&obs.ix)}));
             };
+            // mints whose transfer-hook extension names no program: both routes must treat them as hook-free
+            let idle_hook = obs.ix.metas.iter().any(|m| obs.pre.get(&m.key).map(|a| a.owner == crate::world::TOKEN22 && a.data.len() > 165 + 1 && a.data[165] == 1 && has_ext(&a.data, 14)).unwrap_or(false));
+            if idle_hook {
+                acc.count("route_pairs_on_idle_hook_mints");
+                if obs.ok() && anchor_out.ok() {
+                    acc.count("route_pairs_on_idle_hook_mints_both_ok");
+                }
+            }
             match (obs.ok(), anchor_out.ok()) {
                 (true, true) => {
                     acc.count("route_pairs_both_ok");
